@@ -17,16 +17,16 @@ VARIABLE t
 Init == t \in Tables
 Next == UNCHANGED t
 
-InPlain(regions, s) == \E i \in DOMAIN regions : regions[i][1] <= s /\ s < regions[i][2]
+InPlain(regions, s) == \E i \in DOMAIN regions : regions[i][1] <= s /\ s <= regions[i][2]
 
 (* in a valid table no sector is both plain and encrypted, every sector below *)
-(* the last region's end is one or the other, sectors from there on are plain *)
+(* the last region's end is one or the other, sectors after it are plain       *)
 Partition ==
   ValidTable(t, P(Len(t))) =>
     \A s \in 0..(MaxSector + 1) :
       /\ ~(InPlain(t, s) /\ Encrypted(t, s))
-      /\ (s < t[Len(t)][2] => (InPlain(t, s) \/ Encrypted(t, s)))
-      /\ (s >= t[Len(t)][2] => ~Encrypted(t, s))
+      /\ (s <= t[Len(t)][2] => (InPlain(t, s) \/ Encrypted(t, s)))
+      /\ (s > t[Len(t)][2] => ~Encrypted(t, s))
 (* sector 0 (the table itself) is never encrypted *)
 HeaderPlain == ValidTable(t, P(Len(t))) => ~Encrypted(t, 0)
 
